@@ -67,6 +67,8 @@ type RunCfg struct {
 	SplitFiles bool // write the program as call file + included declarations
 	RestartTransform string
 	ExtraFiles bool
+	LinkDirs   bool // stages may report outputs through a symlinked sub-directory of files/
+	Companions bool // stages may write x.idx next to an output file x
 	ChunkRes   bool // splits return per-chunk resource requests
 	SlowLabel string // tasks whose label contains this get SlowDiv times less weight
 	SlowDiv   int
@@ -100,7 +102,8 @@ type Run struct {
 	ExtraLaunch func(p *vrt.Proc, c *vproc.Cmd) func() int
 	DupJournal  func(j *JobRec) bool
 	DropHeartbeat func(j *JobRec) bool
-	Files      map[string]*FileRec // files written by stage code, by path
+	Files      map[string]*FileRec // files written by stage code, by (real) path
+	Logical    map[string]string   // reported path -> real path, where they differ
 	Start      time.Time
 	SimTime    time.Duration
 	ExitCodes  []int
@@ -121,6 +124,7 @@ type FileRec struct {
 	Job     *JobRec
 	Seq     int
 	Extra   bool // not named by any output
+	Logical string // the path the stage reported, when it differs (through a symlinked directory)
 	Tmp     bool // in the job's temporary directory
 }
 
@@ -169,6 +173,17 @@ func (r *Run) chunkResources(j *JobRec, i int) (float64, float64) {
 	ths := []float64{0, 1, 2, 0.5, 3, -1, 16}
 	mems := []float64{0, 1, 2, 0.25, 5, -2, 64}
 	return ths[h%uint64(len(ths))], mems[(h/8)%uint64(len(mems))]
+}
+
+// fileRec finds the record of a file by its real or its reported path.
+func (r *Run) fileRec(p string) *FileRec {
+	if rec := r.Files[p]; rec != nil {
+		return rec
+	}
+	if real, ok := r.Logical[p]; ok {
+		return r.Files[real]
+	}
+	return nil
 }
 
 func (r *Run) noteFile(j *JobRec, p, content string) {
@@ -237,7 +252,7 @@ func (r *Run) checkArgFiles(j *JobRec, v interface{}) {
 	switch x := v.(type) {
 	case string:
 		if strings.HasPrefix(x, r.PsDir+"/") {
-			rec := r.Files[x]
+			rec := r.fileRec(x)
 			b, err := os.ReadFile(x)
 			if err != nil {
 				// maybe named through a symlinked directory
@@ -313,7 +328,7 @@ func SetupBase(root, repo string) error {
 
 func NewRun(cfg *RunCfg) *Run {
 	r := &Run{Cfg: cfg, Prog: cfg.Prog, FCfg: cfg.FCfg, Root: cfg.Root,
-		Probes: map[string]int{}, Faults: map[string]int{}, Files: map[string]*FileRec{}}
+		Probes: map[string]int{}, Faults: map[string]int{}, Files: map[string]*FileRec{}, Logical: map[string]string{}}
 	r.PsDir = path.Join(cfg.Root, "ps")
 	r.MroDir = path.Join(cfg.Root, "mro")
 	return r
